@@ -139,6 +139,7 @@ def state_writes(fi: FuncInfo) -> List[Tuple[str, ast.AST]]:
     if is_static and fi.cls is not None and fi.name in ("forward", "backward") and fn.args.args:
         params_all.discard(fn.args.args[0].arg)
     alias: Dict[str, str] = {}
+    view_alias: Dict[str, str] = {}
     galias: Dict[str, str] = {}
     clsalias: Set[str] = set()
     for nm, ds in fdefs.items():
@@ -148,6 +149,12 @@ def state_writes(fi: FuncInfo) -> List[Tuple[str, ast.AST]]:
         while isinstance(d, ast.Call) and isinstance(d.func, ast.Attribute) and d.func.attr in ("setdefault", "get") :
             d = d.func.value
         r0 = _root_name(d)
+        # a basic subscript of an attribute is a *view* of the stored tensor / the stored container's element: `w = self.wy[-1]`
+        d_view = d
+        while isinstance(d_view, ast.Subscript):
+            d_view = d_view.value
+        if d_view is not d and isinstance(d_view, ast.Attribute) and isinstance(r0, ast.Name) and r0.id in selfish:
+            view_alias[nm] = ast.unparse(d_view)
         if isinstance(d, ast.Attribute) and isinstance(r0, ast.Name) and (r0.id in selfish or (r0.id in params_all and r0.id not in selfish)):
             alias[nm] = ast.unparse(d)
         elif isinstance(d, ast.Name) and d.id in modlevel and d.id not in loc and d.id not in imported:
@@ -231,6 +238,14 @@ def state_writes(fi: FuncInfo) -> List[Tuple[str, ast.AST]]:
                 classify_target(n.target, n)
             elif isinstance(n, ast.AugAssign) and n.target.id not in loc:
                 out.append(("global-mut:%s" % n.target.id, n))
+            elif isinstance(n, ast.AugAssign) and (n.target.id in view_alias or n.target.id in alias) and \
+                    any(isinstance(c_, ast.Call) and (ast.unparse(c_.func).startswith("torch.") or isinstance(c_.func, ast.Attribute)) for c_ in ast.walk(n.value)):
+                # `w = self.wy[-1]; w += torch.matmul(..)`: an augmented assignment to a tensor is an in-place update of the storage the view /
+                # alias shares with the attribute - the cached attribute is changed for every later call
+                tgt_ = view_alias.get(n.target.id) or alias[n.target.id]
+                r1_ = tgt_.split(".")[0]
+                if r1_ in selfish and not (in_ctor and r1_ == first):
+                    out.append(("attr:self.%s[] (in-place through the local view %s)" % (".".join(tgt_.split(".")[1:]), n.target.id), n))
         elif isinstance(n, ast.Delete):
             for t in n.targets:
                 if not isinstance(t, ast.Name):
